@@ -21,6 +21,7 @@ func (m *Mutex) Lock() {
 	vsched.Point()
 	vsched.WaitUntil(func() bool { return !m.locked })
 	m.locked = true
+	vsched.Progress()
 	if vsched.On {
 		m.Owner = vsched.CurID()
 	}
@@ -31,6 +32,7 @@ func (m *Mutex) TryLock() bool {
 		return false
 	}
 	m.locked = true
+	vsched.Progress()
 	if vsched.On {
 		m.Owner = vsched.CurID()
 	}
@@ -58,6 +60,7 @@ func (m *RWMutex) Lock() {
 	vsched.Point()
 	vsched.WaitUntil(func() bool { return !m.w && m.r == 0 })
 	m.w = true
+	vsched.Progress()
 	m.WGen++
 	if vsched.On {
 		m.Writer = vsched.CurID()
@@ -69,6 +72,7 @@ func (m *RWMutex) TryLock() bool {
 		return false
 	}
 	m.w = true
+	vsched.Progress()
 	m.WGen++
 	if vsched.On {
 		m.Writer = vsched.CurID()
@@ -86,6 +90,7 @@ func (m *RWMutex) RLock() {
 	vsched.Point()
 	vsched.WaitUntil(func() bool { return !m.w })
 	m.r++
+	vsched.Progress()
 	if vsched.On {
 		if m.Readers == nil {
 			m.Readers = map[int]int{}
@@ -99,6 +104,7 @@ func (m *RWMutex) TryRLock() bool {
 		return false
 	}
 	m.r++
+	vsched.Progress()
 	if vsched.On {
 		if m.Readers == nil {
 			m.Readers = map[int]int{}
@@ -141,8 +147,8 @@ func (c *Cond) Wait() {
 	vsched.WaitUntil(func() bool { return c.gen != g })
 	c.L.Lock()
 }
-func (c *Cond) Signal()    { vsched.Point(); c.gen++ }
-func (c *Cond) Broadcast() { vsched.Point(); c.gen++ }
+func (c *Cond) Signal()    { vsched.Point(); vsched.Progress(); c.gen++ }
+func (c *Cond) Broadcast() { vsched.Point(); vsched.Progress(); c.gen++ }
 
 type WaitGroup struct{ n int }
 
